@@ -155,6 +155,12 @@ class ExternalVariableCollector(NodeVisitor):
         self.funcnames.add(node.name)
         self.generic_visit(node)
 
+    def visit_ClassDef(self, node):
+        # The class statement binds its name in the function's scope
+        self.provenance[node.name] = "body"
+        self.assigned.add(node.name)
+        self.generic_visit(node)
+
     def visit_Name(self, node):
         if isinstance(node.ctx, ast.Load):
             self.used.add(node.id)
